@@ -106,17 +106,24 @@ def idLanOf (j : Json) : P (Nat × Lan) := do
   | [i, l] => pure (← asNat i, ← lanOf l)
   | _ => throw "expected [id, lanelet]"
 
+def idFlagOf (j : Json) : P (Nat × Bool) := do
+  match ← asArr j with
+  | [i, b] => pure (← asNat i, ← asBool b)
+  | _ => throw "expected [id, registered]"
+
 def netOpOf (j : Json) : P NetOp := do
   match ← asArr j with
   | [.str "add", i, l, r] => pure (.add (← asNat i) (← lanOf l) (← asBool r))
   | [.str "add_from", ls] => pure (.addFrom (← listOf idLanOf ls))
   | [.str "remove", i, r] => pure (.remove (← asNat i) (← asBool r))
+  | [.str "remove_many", ids] => pure (.removeMany (← listOf idFlagOf ids))
   | [.str "tr", v] => pure (.translateRotate (← asNat v))
   | [.str "to2d", v] => pure (.convert2d (← asNat v))
   | [.str "l_tr", i, v] => pure (.lanTranslateRotate (← asNat i) (← asNat v))
   | [.str "l_to2d", i, v] => pure (.lanConvert2d (← asNat i) (← asNat v))
   | [.str "create_from"] => pure .createFrom
   | [.str "replace", ls] => pure (.replace (← listOf idLanOf ls))
+  | [.str "replace_erase", un, ls] => pure (.replaceErase (← listOf asNat un) (← listOf idLanOf ls))
   | [.str "failed", e] => pure (.failed (← errOf e))
   | [.str "deepcopy"] => pure .deepcopy
   | [.str "pickle"] => pure .pickle
@@ -125,6 +132,21 @@ def netOpOf (j : Json) : P NetOp := do
   | [.str "q_dist", i] => pure (.qDist (← asNat i))
   | [.str "q_inner", i] => pure (.qInner (← asNat i))
   | _ => throw s!"net op: cannot decode {j}"
+
+def deriveOf (j : Json) : P Derive := do
+  match ← asArr j with
+  | [.str "from_list", c] => pure (.fromList (← asBool c))
+  | [.str "from_network"] => pure .fromNetwork
+  | [.str "deepcopy"] => pure .deepcopy
+  | [.str "pickle"] => pure .pickle
+  | [.str "add_from"] => pure .addFrom
+  | _ => throw s!"derive: cannot decode {j}"
+
+def sideOpOf (j : Json) : P (Side × NetOp) := do
+  match ← asArr j with
+  | [.str "a", op] => pure (.a, ← netOpOf op)
+  | [.str "b", op] => pure (.b, ← netOpOf op)
+  | _ => throw s!"duo op: expected [side, op], got {j}"
 
 def lanOpOf (j : Json) : P LanOp := do
   match ← asArr j with
@@ -182,6 +204,16 @@ def handle (op : String) (a : Json) : P Json := do
     let n : Net := { lanelets := ls, buffered := entries, tree := some entries }
     let ops ← getList netOpOf a "ops"
     pure <| Json.arr ((n.run ops).1.map netAnsJ).toArray
+  | "duo_run" =>
+    -- a network, operations on it alone (`pre`), the derivation of a second network, operations on the two
+    let ls ← getList idLanOf a "lanelets"
+    let entries := ls.map (fun p => (p.1, p.2.xy))
+    let n : Net := { lanelets := ls, buffered := entries, tree := some entries }
+    let pre ← getList netOpOf a "pre"
+    let r := n.run pre
+    let dv ← deriveOf (← field a "derive")
+    let ops ← getList sideOpOf a "ops"
+    pure <| Json.arr ((r.1 ++ ((Duo.derive r.2 dv).run ops).1).map netAnsJ).toArray
   | "lan_run" =>
     let l ← lanOf (← field a "lan")
     let ops ← getList lanOpOf a "ops"
